@@ -313,9 +313,9 @@ int main(int argc, char** argv)
     maxn = thorough ? (9u << 20) : (600u << 10); data = xalloc(maxn + 16);
     LZ4F_createCompressionContext(&cctx, LZ4F_VERSION); dctx = new_dctx(0);
 
-    if (!strcmp(mode, "c03")) big_contiguous_decode(((size_t)1 << 30) + (48u << 20));
+    if (!strcmp(mode, "c03") && ONCE) big_contiguous_decode(((size_t)1 << 30) + (48u << 20));
     if (!strcmp(mode, "c03") || !strcmp(mode, "c07")) {
-        int ncases = thorough ? 6000 : 260;
+        int ncases = thorough ? SH(1200) : 260;
         for (i = 0; i < ncases; i++) {
             int kindD = i % 4 == 0 ? D_RANDOM : (int)rndn(D_KINDS); size_t n; int kind;
             switch (rndn(8)) { case 0: n = rndn(40); break; case 1: n = 65536 + rndn(5) - 2; break; case 2: n = 2 * 65536 + rndn(5) - 2; break; case 3: n = rndn((u32)maxn); break; case 4: n = 262144 + rndn(3) - 1; break; default: n = rndn(200000); }
@@ -328,7 +328,7 @@ int main(int argc, char** argv)
         {   /* frames the END-TO-END model (Model/FrameFast.lean) reproduces byte for byte: a FRESH compression context, a fast level, independent blocks,
              * no dictionary, compressed updates and flushes only; everything else random (block size id, checksums, content size, dictID, autoFlush,
              * update sizes).  Record kind 5. */
-            int nm = thorough ? 1500 : 120;
+            int nm = thorough ? SH(800) : 120;
             for (i = 0; i < nm; i++) {
                 static const int fastLevels[] = {0, 0, 1, -1, -3, -100, 1};
                 size_t n = rndp(50) ? rndn(3000) : rndp(70) ? rndn(140000) : rndn(280000); LZ4F_preferences_t prefs = rand_prefs(n); LZ4F_cctx* fresh = NULL; vec_t out; rec_t r; int rc;
@@ -363,7 +363,7 @@ int main(int argc, char** argv)
         }
     } else if (!strcmp(mode, "c08")) {
         /* valid small frames; all single-bit flips and truncations of some; random damage; all FLG/BD pairs (sampled in quick) */
-        int nframes = thorough ? 400 : 24;
+        int nframes = thorough ? SH(400) : 24;
         for (i = 0; i < nframes; i++) {
             LZ4F_preferences_t prefs = rand_prefs(0); vec_t f; size_t n = rndp(60) ? rndn(120) : rndn(70000); size_t k; u8* m;
             memset(&f, 0, sizeof f); gen_data(data, n, (int)rndn(D_KINDS)); prefs.frameInfo.contentSize = rndp(40) ? n : 0;
@@ -385,7 +385,7 @@ int main(int argc, char** argv)
             free(m); free(f.p);
         }
         {   /* every FLG/BD pair with the right and a wrong header checksum (no optional fields beyond what FLG asks for) */
-            u32 step = thorough ? 1 : 37, v; u32 start = thorough ? 0 : rndn(37);
+            u32 step = thorough ? (u32)g_shards : 37, v; u32 start = thorough ? (u32)g_shard : rndn(37);
             for (v = start; v < 65536; v += step) {
                 u8 h[32]; size_t len = 6; u8 flg = (u8)(v >> 8), bd = (u8)v; int w;
                 h[0] = 0x04; h[1] = 0x22; h[2] = 0x4D; h[3] = 0x18; h[4] = flg; h[5] = bd;
@@ -470,8 +470,8 @@ int main(int argc, char** argv)
         }
     } else if (!strcmp(mode, "c10")) {
         /* bound functions: (a) translated Gen functions agree with the C functions, (b) exact-capacity calls for every buffered amount and both update kinds */
-        int ncases = thorough ? 3000 : 300;
-        for (i = 0; i < (thorough ? 20000 : 3000); i++) {
+        int ncases = thorough ? SH(3000) : 300;
+        for (i = 0; i < (thorough ? SH(20000) : 3000); i++) {
             LZ4F_preferences_t p = rand_prefs(0); size_t s = rndp(30) ? rndn(10) : rndp(50) ? rndn(300000) : (size_t)rnd() % (1ull << 33); int nul = rndp(8);
             if (rndp(5)) p.frameInfo.blockSizeID = (LZ4F_blockSizeID_t)rndn(10);
             genfunc_rec(1, (long long)s, nul ? -1LL : (long long)p.frameInfo.blockSizeID, p.frameInfo.blockChecksumFlag, p.frameInfo.contentChecksumFlag, p.autoFlush, (long long)LZ4F_compressBound(s, nul ? NULL : &p));
@@ -534,7 +534,7 @@ int main(int argc, char** argv)
                 free(dst); cur_clear();
             }
         }
-        for (i = 0; i < (thorough ? 2000 : 200); i++) {   /* compressFrame at exactly the frame bound, and below */
+        for (i = 0; i < (thorough ? SH(2000) : 200); i++) {   /* compressFrame at exactly the frame bound, and below */
             LZ4F_preferences_t prefs = rand_prefs(0); size_t n = rndp(50) ? rndn(300) : rndn(200000); size_t cap, r; u8* dst; rec_t rc; int below = rndp(30);
             gen_data(data, n, rndp(70) ? D_RANDOM : (int)rndn(D_KINDS)); prefs.frameInfo.contentSize = rndp(30) ? n : 0;
             rec_begin(&rc, OP_FRAME + 101); rec_prefs(&rc, &prefs); rec_int(&rc, (long long)n); cur_set(&rc);
@@ -546,7 +546,7 @@ int main(int argc, char** argv)
         }
     } else if (!strcmp(mode, "c19")) {
         /* context reuse: sessions that end normally, are abandoned, or fail; then a fresh frame must be valid and identical to a fresh context's */
-        int ncases = thorough ? 3000 : 200;
+        int ncases = thorough ? SH(3000) : 200;
         for (i = 0; i < ncases; i++) {
             size_t n = rndp(60) ? rndn(3000) : rndn(150000); LZ4F_preferences_t prefs; vec_t a, b; LZ4F_cctx* fresh; rec_t r; int sab = (int)rndn(5);
             memset(&a, 0, sizeof a); memset(&b, 0, sizeof b);
